@@ -828,6 +828,7 @@ def m_normalize(interp, args, kw):
 
 
 _NFKC_DELIMS = None
+NETLOC_ASCII = False      # set per item by the harness (quick tier): symbolic netloc characters are assumed ASCII
 
 
 def _nfkc_delims():
@@ -853,6 +854,9 @@ def m_checknetloc(interp, args, kw):
     netloc = args[0]
     if not has_sym(netloc):
         return NATIVE
+    if NETLOC_ASCII:
+        core.CUR.assume(V.all_in(elems(netloc), V.ASCII, empty=True), "quick tier: symbolic netloc characters are ASCII")
+        return None
     cs = _nfkc_delims()
     for c in elems(netloc):
         if isinstance(c, int):
